@@ -77,6 +77,8 @@ mod macros;
 mod params;
 mod parse;
 mod pearson;
+#[cfg(all(fast_tlsh_verif, feature = "std"))]
+pub mod verif;
 
 // Easy function re-exports
 #[cfg(feature = "easy-functions")]
